@@ -19,6 +19,8 @@ from sa.core.align import attribute_sigs, module_name_sigs
 trees = {m.name: m.tree for m in repo.modules.values()}
 out["__attrs__"] = attribute_sigs(trees)
 out["__modnames__"] = module_name_sigs(trees)
+from sa.core.imports_norm import import_bindings
+out["__imports__"] = {name: import_bindings(t) for name, t in trees.items()}
 REF_FILE.write_text(json.dumps(out, indent=0, sort_keys=True))
 from sa.core.shell_alpha import var_sigs, first_assignment_order, REF as SHELL_REF
 shell = {}
